@@ -64,9 +64,9 @@ def _case(draw):
     elif form == 'scalar':
         sel = [draw(st.integers(0, D - 1))]
     else:
-        sel = draw(st.lists(st.integers(0, D - 1), min_size=1, max_size=D, unique=True))
+        sel = draw(st.lists(st.integers(0, D - 1), min_size=0, max_size=D, unique=True))     # incl. the empty request
     k = len(sel)
-    spell = [draw(st.booleans()) for _ in sel]
+    spell = [draw(st.sampled_from(['name', 'pos', 'neg', 'name', 'pos'])) for _ in sel]
     over = {}
     which = draw(st.lists(st.sampled_from(['at', 'gain', 'res']), max_size=3, unique=True))
     if container == 'array':
@@ -114,6 +114,19 @@ def law(kind, p, x):
     return p[1] * 10 ** (p[0] * x / p[2])
 
 
+def _spell(j, sp, names, is_array):
+    """Channel j spelled by name, by position or by negative position (True/False kept for old replay files)."""
+    if sp is True:
+        sp = 'name'
+    elif sp is False:
+        sp = 'pos'
+    if sp == 'name' and not is_array:
+        return names[j]
+    if sp == 'neg':
+        return j - len(names)
+    return j
+
+
 def _kw(over, form, idxs=None):
     kw = {}
     names = dict(at='amplification_type', gain='amplifier_gain', res='resolution')
@@ -137,13 +150,13 @@ def check(case, obs):
     data = np.asarray(d).copy() if is_array else d
     if is_array:
         data = data.astype(data.dtype.newbyteorder('='))
-    chs = [names[j] if (sp and not is_array) else j for j, sp in zip(sel, case['spell'])]
+    chs = [_spell(j, sp, names, is_array) for j, sp in zip(sel, case['spell'])]
     ch_arg = None if form == 'none' else (chs[0] if form == 'scalar' else chs)
     kw = _kw(over, form)
     obs.label('container:' + case['container'], 'form:' + form, 'dtype:' + spec['datatype'])
 
     # ------------------------------------------------------------------ error arm
-    if case['err'] is not None:
+    if case['err'] is not None and sel:
         e = case['err']
         obs.label('error_arm')
         obs.nontrivial = True
